@@ -10,6 +10,8 @@
 
 package doccomposer
 
+//@ spec func inStrings(l []string, x string) bool = exists r int :: 0 <= r && r < len(l) && l[r] == x
+
 //@ func deepCopy(doc) (ret, err)
 //@   modifies nothing
 //@   ensures [atomic] (err != nil ==> ret == nil) && (err == nil ==> ret != nil)
@@ -26,85 +28,266 @@ package doccomposer
 //@   modifies mapcontent(doc)
 //@   ensures [atomic] (err != nil ==> ret == nil) && (err == nil ==> ret != nil)
 //@   ensures [result] err == nil ==> ret == doc || fresh(ret)
+// C10: the six list actions edit the document they are given, replace and ietf-json-patch return a new one
+//@   let act, aerr := p.GetAction()
+//@   ensures [in-place] err == nil && (act == patch.AddPublicKeys || act == patch.RemovePublicKeys || act == patch.AddServiceEndpoints ||
+//@        act == patch.RemoveServiceEndpoints || act == patch.AddAlsoKnownAs || act == patch.RemoveAlsoKnownAs) ==> ret == doc
+//@   ensures [new-doc] err == nil && (act == patch.Replace || act == patch.JSONPatch) ==> fresh(ret)
+//@   ensures [known-action] err == nil ==> aerr == nil && (act == patch.Replace || act == patch.JSONPatch || act == patch.AddPublicKeys || act == patch.RemovePublicKeys ||
+//@        act == patch.AddServiceEndpoints || act == patch.RemoveServiceEndpoints || act == patch.AddAlsoKnownAs || act == patch.RemoveAlsoKnownAs)
 
 //@ func applyJSON(doc, entry) (ret, err)
 //@   modifies nothing
 //@   ensures [atomic] (err != nil ==> ret == nil) && (err == nil ==> ret != nil)
 //@   ensures [fresh] err == nil ==> fresh(ret)
 
+// C10 replace: the result is a new document with the key list and the service list and nothing else
+// (whatever the previous document held is gone: the previous document is not even an argument)
 //@ func applyRecover(replaceDoc) (ret, err)
 //@   modifies nothing
 //@   ensures [atomic] (err != nil ==> ret == nil) && (err == nil ==> ret != nil)
 //@   ensures [fresh] err == nil ==> fresh(ret)
+//@   ensures [only] err == nil ==> (forall k string :: has(ret, k) <==> (k == "publicKey" || k == "service"))
 
+// C10 add-public-keys: insert or replace by id, keeping the existing order and appending new entries.
+// K: the keys before, A: the keys of the patch, M: the set of ids of K, N: the list stored afterwards.
+// N keeps the length and the ids of K position by position; a position holds the old key or a patch
+// key with the same id, and it holds a patch key whenever the patch has one with that id; behind the
+// first len(K) positions come exactly the patch keys whose id is not in M.
 //@ func applyAddPublicKeys(doc, entry) (ret, err)
 //@   requires doc != nil
 //@   modifies mapcontent(doc)
+//@   hide document.ParsePublicKeys[nonlist, all]
+//@   hide sliceToMapPK[members, contains]
+//@   let K := document.ParsePublicKeys(doc["publicKey"])
+//@   let A := document.ParsePublicKeys(entry)
+//@   let M := sliceToMapPK(K)
 //@   ensures [result] err == nil && ret == doc
+//@   ensures [list] typeis(doc["publicKey"], []interface{}) && len(doc["publicKey"].([]interface{})) >= len(K)
+//@   ensures [ids] uses [len, ids] forall i int :: 0 <= i && i < len(K) ==> typeis(doc["publicKey"].([]interface{})[i], map[string]interface{}) &&
+//@        document.strEntry(doc["publicKey"].([]interface{})[i].(map[string]interface{}), "id") == document.strEntry(K[i], "id")
+//@   ensures [origin] uses [len, origin] forall i int :: 0 <= i && i < len(K) ==> doc["publicKey"].([]interface{})[i] == any(map[string]interface{}(K[i])) ||
+//@        (exists a int :: 0 <= a && a < len(A) && doc["publicKey"].([]interface{})[i] == any(map[string]interface{}(A[a])) && document.strEntry(A[a], "id") == document.strEntry(K[i], "id"))
+//@   ensures [replaced] uses [len, replaced] forall i int, a int :: 0 <= i && i < len(K) && 0 <= a && a < len(A) && document.strEntry(A[a], "id") == document.strEntry(K[i], "id") ==>
+//@        (exists b int :: 0 <= b && b < len(A) && doc["publicKey"].([]interface{})[i] == any(map[string]interface{}(A[b])) && document.strEntry(A[b], "id") == document.strEntry(K[i], "id"))
+//@   ensures [appended] uses [len, appended] forall a int :: 0 <= a && a < len(A) && !has(M, document.strEntry(A[a], "id")) ==>
+//@        (exists n int :: len(K) <= n && n < len(doc["publicKey"].([]interface{})) && doc["publicKey"].([]interface{})[n] == any(map[string]interface{}(A[a])))
+//@   ensures [tail] uses [len, tail] forall n int :: len(K) <= n && n < len(doc["publicKey"].([]interface{})) ==>
+//@        (exists a int :: 0 <= a && a < len(A) && !has(M, document.strEntry(A[a], "id")) && doc["publicKey"].([]interface{})[n] == any(map[string]interface{}(A[a])))
 //@   loop 0 invariant [own] newPublicKeys == nil || fresh(newPublicKeys)
+//@   loop 0 invariant [apart] uses [own, len] newPublicKeys == nil || (!sameArray(newPublicKeys, K) && !sameArray(newPublicKeys, A))
+//@   loop 0 invariant [len] uses [] $k <= len(A) && existingPublicKeysMap == M && len(newPublicKeys) >= len(K)
+//@   loop 0 invariant [ids] uses [apart, len] forall i int :: 0 <= i && i < len(K) ==> document.strEntry(newPublicKeys[i], "id") == document.strEntry(K[i], "id")
+//@   loop 0 invariant [origin] uses [apart, len, ids] forall i int :: 0 <= i && i < len(K) ==> newPublicKeys[i] == K[i] ||
+//@        (exists a int :: 0 <= a && a < $k && newPublicKeys[i] == A[a] && document.strEntry(A[a], "id") == document.strEntry(K[i], "id"))
+//@   loop 0 invariant [replaced] uses [apart, len, ids] forall i int, a int :: 0 <= i && i < len(K) && 0 <= a && a < $k && document.strEntry(A[a], "id") == document.strEntry(K[i], "id") ==>
+//@        (exists b int :: 0 <= b && b < $k && newPublicKeys[i] == A[b] && document.strEntry(A[b], "id") == document.strEntry(K[i], "id"))
+//@   loop 0 invariant [appended] uses [apart, len, tail] forall a int :: 0 <= a && a < $k && !has(M, document.strEntry(A[a], "id")) ==>
+//@        (exists n int :: len(K) <= n && n < len(newPublicKeys) && newPublicKeys[n] == A[a])
+//@   loop 0 invariant [tail] uses [apart, len] forall n int :: len(K) <= n && n < len(newPublicKeys) ==>
+//@        (exists a int :: 0 <= a && a < $k && !has(M, document.strEntry(A[a], "id")) && newPublicKeys[n] == A[a])
 
+// C10 remove-public-keys: delete by id, ignore unknown ids. K: the keys of the document before, S: the
+// set of ids to remove, N: the list stored afterwards. Every entry of N is a key of K, no entry of N
+// has an id in S, and every key of K whose id is not in S is an entry of N.
 //@ func applyRemovePublicKeys(doc, entry) (ret, err)
 //@   requires doc != nil
 //@   modifies mapcontent(doc)
+// (what the list parsers and the set builder guarantee about their results is not needed here)
+//@   hide document.ParsePublicKeys[nonlist, all]
+//@   hide document.ParseServices[nonlist, all]
+//@   hide document.StringArray[nonlist, bound, strings, all]
+//@   hide sliceToMap[members, contains]
+//@   let K := document.ParsePublicKeys(doc["publicKey"])
+//@   let S := sliceToMap(document.StringArray(entry))
 //@   ensures [result] err == nil && ret == doc
+//@   ensures [list] typeis(doc["publicKey"], []interface{})
+//@   ensures [subset] forall a int :: 0 <= a && a < len(doc["publicKey"].([]interface{})) ==>
+//@        (exists j int :: 0 <= j && j < len(K) && !has(S, document.strEntry(K[j], "id")) && doc["publicKey"].([]interface{})[a] == any(map[string]interface{}(K[j])))
+//@   ensures [keeps] forall j int :: 0 <= j && j < len(K) && !has(S, document.strEntry(K[j], "id")) ==>
+//@        (exists a int :: 0 <= a && a < len(doc["publicKey"].([]interface{})) && doc["publicKey"].([]interface{})[a] == any(map[string]interface{}(K[j])))
 //@   loop 0 invariant [own] newPublicKeys == nil || fresh(newPublicKeys)
+//@   loop 0 invariant [subset] $k <= len(K) && keysToRemove == S && (forall a int :: 0 <= a && a < len(newPublicKeys) ==>
+//@        (exists j int :: 0 <= j && j < $k && !has(S, document.strEntry(K[j], "id")) && newPublicKeys[a] == any(map[string]interface{}(K[j]))))
+//@   loop 0 invariant [keeps] forall j int :: 0 <= j && j < $k && !has(S, document.strEntry(K[j], "id")) ==>
+//@        (exists a int :: 0 <= a && a < len(newPublicKeys) && newPublicKeys[a] == any(map[string]interface{}(K[j])))
 
+// C10 add-services: as add-public-keys, on the service list.
+// K: the services before, A: the services of the patch, M: the set of ids of K, N: the list stored afterwards.
+// N keeps the length and the ids of K position by position; a position holds the old key or a patch
+// key with the same id, and it holds a patch key whenever the patch has one with that id; behind the
+// first len(K) positions come exactly the patch keys whose id is not in M.
 //@ func applyAddServiceEndpoints(doc, entry) (ret, err)
 //@   requires doc != nil
 //@   modifies mapcontent(doc)
+//@   hide document.ParseServices[nonlist, all]
+//@   hide sliceToMapServices[members, contains]
+//@   let K := document.ParseServices(doc["service"])
+//@   let A := document.ParseServices(entry)
+//@   let M := sliceToMapServices(K)
 //@   ensures [result] err == nil && ret == doc
+//@   ensures [list] typeis(doc["service"], []interface{}) && len(doc["service"].([]interface{})) >= len(K)
+//@   ensures [ids] uses [len, ids] forall i int :: 0 <= i && i < len(K) ==> typeis(doc["service"].([]interface{})[i], map[string]interface{}) &&
+//@        document.strEntry(doc["service"].([]interface{})[i].(map[string]interface{}), "id") == document.strEntry(K[i], "id")
+//@   ensures [origin] uses [len, origin] forall i int :: 0 <= i && i < len(K) ==> doc["service"].([]interface{})[i] == any(map[string]interface{}(K[i])) ||
+//@        (exists a int :: 0 <= a && a < len(A) && doc["service"].([]interface{})[i] == any(map[string]interface{}(A[a])) && document.strEntry(A[a], "id") == document.strEntry(K[i], "id"))
+//@   ensures [replaced] uses [len, replaced] forall i int, a int :: 0 <= i && i < len(K) && 0 <= a && a < len(A) && document.strEntry(A[a], "id") == document.strEntry(K[i], "id") ==>
+//@        (exists b int :: 0 <= b && b < len(A) && doc["service"].([]interface{})[i] == any(map[string]interface{}(A[b])) && document.strEntry(A[b], "id") == document.strEntry(K[i], "id"))
+//@   ensures [appended] uses [len, appended] forall a int :: 0 <= a && a < len(A) && !has(M, document.strEntry(A[a], "id")) ==>
+//@        (exists n int :: len(K) <= n && n < len(doc["service"].([]interface{})) && doc["service"].([]interface{})[n] == any(map[string]interface{}(A[a])))
+//@   ensures [tail] uses [len, tail] forall n int :: len(K) <= n && n < len(doc["service"].([]interface{})) ==>
+//@        (exists a int :: 0 <= a && a < len(A) && !has(M, document.strEntry(A[a], "id")) && doc["service"].([]interface{})[n] == any(map[string]interface{}(A[a])))
 //@   loop 0 invariant [own] newServices == nil || fresh(newServices)
+//@   loop 0 invariant [apart] uses [own, len] newServices == nil || (!sameArray(newServices, K) && !sameArray(newServices, A))
+//@   loop 0 invariant [len] uses [] $k <= len(A) && existingServicesMap == M && len(newServices) >= len(K)
+//@   loop 0 invariant [ids] uses [apart, len] forall i int :: 0 <= i && i < len(K) ==> document.strEntry(newServices[i], "id") == document.strEntry(K[i], "id")
+//@   loop 0 invariant [origin] uses [apart, len, ids] forall i int :: 0 <= i && i < len(K) ==> newServices[i] == K[i] ||
+//@        (exists a int :: 0 <= a && a < $k && newServices[i] == A[a] && document.strEntry(A[a], "id") == document.strEntry(K[i], "id"))
+//@   loop 0 invariant [replaced] uses [apart, len, ids] forall i int, a int :: 0 <= i && i < len(K) && 0 <= a && a < $k && document.strEntry(A[a], "id") == document.strEntry(K[i], "id") ==>
+//@        (exists b int :: 0 <= b && b < $k && newServices[i] == A[b] && document.strEntry(A[b], "id") == document.strEntry(K[i], "id"))
+//@   loop 0 invariant [appended] uses [apart, len, tail] forall a int :: 0 <= a && a < $k && !has(M, document.strEntry(A[a], "id")) ==>
+//@        (exists n int :: len(K) <= n && n < len(newServices) && newServices[n] == A[a])
+//@   loop 0 invariant [tail] uses [apart, len] forall n int :: len(K) <= n && n < len(newServices) ==>
+//@        (exists a int :: 0 <= a && a < $k && !has(M, document.strEntry(A[a], "id")) && newServices[n] == A[a])
 
+// C10 remove-services: as remove-public-keys, on the service list
 //@ func applyRemoveServiceEndpoints(doc, entry) (ret, err)
 //@   requires doc != nil
 //@   modifies mapcontent(doc)
+// (what the list parsers and the set builder guarantee about their results is not needed here)
+//@   hide document.ParsePublicKeys[nonlist, all]
+//@   hide document.ParseServices[nonlist, all]
+//@   hide document.StringArray[nonlist, bound, strings, all]
+//@   hide sliceToMap[members, contains]
+//@   let K := document.ParseServices(doc["service"])
+//@   let S := sliceToMap(document.StringArray(entry))
 //@   ensures [result] err == nil && ret == doc
+//@   ensures [list] typeis(doc["service"], []interface{})
+//@   ensures [subset] forall a int :: 0 <= a && a < len(doc["service"].([]interface{})) ==>
+//@        (exists j int :: 0 <= j && j < len(K) && !has(S, document.strEntry(K[j], "id")) && doc["service"].([]interface{})[a] == any(map[string]interface{}(K[j])))
+//@   ensures [keeps] forall j int :: 0 <= j && j < len(K) && !has(S, document.strEntry(K[j], "id")) ==>
+//@        (exists a int :: 0 <= a && a < len(doc["service"].([]interface{})) && doc["service"].([]interface{})[a] == any(map[string]interface{}(K[j])))
 //@   loop 0 invariant [own] newServices == nil || fresh(newServices)
+//@   loop 0 invariant [subset] $k <= len(K) && servicesToRemove == S && (forall a int :: 0 <= a && a < len(newServices) ==>
+//@        (exists j int :: 0 <= j && j < $k && !has(S, document.strEntry(K[j], "id")) && newServices[a] == any(map[string]interface{}(K[j]))))
+//@   loop 0 invariant [keeps] forall j int :: 0 <= j && j < $k && !has(S, document.strEntry(K[j], "id")) ==>
+//@        (exists a int :: 0 <= a && a < len(newServices) && newServices[a] == any(map[string]interface{}(K[j])))
 
+// C10 add-also-known-as: ordered set union. E: the URIs before, U: the URIs of the patch, S: the set of
+// E, N: the list stored afterwards. N starts with E unchanged; behind it come URIs of U that are not
+// in E, and every URI of U that is not in E is among them.
 //@ func applyAddAlsoKnownAs(doc, entry) (ret, err)
 //@   requires doc != nil
 //@   modifies mapcontent(doc)
+//@   hide document.StringArray[nonlist, bound, strings, all]
+//@   hide sliceToMap[members, contains]
+//@   let E := document.StringArray(doc["alsoKnownAs"])
+//@   let U := document.StringArray(entry)
+//@   let S := sliceToMap(E)
 //@   ensures [result] err == nil && ret == doc
+//@   ensures [list] typeis(doc["alsoKnownAs"], []interface{})
+//@   ensures [prefix] len(doc["alsoKnownAs"].([]interface{})) >= len(E) && (forall i int :: 0 <= i && i < len(E) ==> doc["alsoKnownAs"].([]interface{})[i] == any(E[i]))
+//@   ensures [added] forall a int :: len(E) <= a && a < len(doc["alsoKnownAs"].([]interface{})) ==>
+//@        (exists u int :: 0 <= u && u < len(U) && !has(S, U[u]) && doc["alsoKnownAs"].([]interface{})[a] == any(U[u]))
+//@   ensures [all-new] forall u int :: 0 <= u && u < len(U) && !has(S, U[u]) ==>
+//@        (exists a int :: len(E) <= a && a < len(doc["alsoKnownAs"].([]interface{})) && doc["alsoKnownAs"].([]interface{})[a] == any(U[u]))
 //@   loop 0 invariant [own] newURIs == nil || fresh(newURIs)
+// (the list under construction shares no memory with the lists it is built from)
+//@   loop 0 invariant [apart] newURIs == nil || (!sameArray(newURIs, U) && !sameArray(newURIs, E))
+//@   loop 0 invariant [prefix] $k <= len(U) && existingURIs == S && len(newURIs) >= len(E) && (forall i int :: 0 <= i && i < len(E) ==> newURIs[i] == E[i])
+//@   loop 0 invariant [added] forall a int :: len(E) <= a && a < len(newURIs) ==>
+//@        (exists u int :: 0 <= u && u < $k && !has(S, U[u]) && newURIs[a] == U[u])
+//@   loop 0 invariant [all-new] forall u int :: 0 <= u && u < $k && !has(S, U[u]) ==>
+//@        (exists a int :: len(E) <= a && a < len(newURIs) && newURIs[a] == U[u])
 
+// C10 remove-also-known-as: ordered set difference. K: the URIs before, S: the set to remove
 //@ func applyRemoveAlsoKnownAs(doc, entry) (ret, err)
 //@   requires doc != nil
 //@   modifies mapcontent(doc)
+// (what the list parsers and the set builder guarantee about their results is not needed here)
+//@   hide document.ParsePublicKeys[nonlist, all]
+//@   hide document.ParseServices[nonlist, all]
+//@   hide document.StringArray[nonlist, bound, strings, all]
+//@   hide sliceToMap[members, contains]
+//@   let K := document.StringArray(doc["alsoKnownAs"])
+//@   let S := sliceToMap(document.StringArray(entry))
 //@   ensures [result] err == nil && ret == doc
+//@   ensures [list] typeis(doc["alsoKnownAs"], []interface{})
+//@   ensures [subset] forall a int :: 0 <= a && a < len(doc["alsoKnownAs"].([]interface{})) ==>
+//@        (exists j int :: 0 <= j && j < len(K) && !has(S, K[j]) && doc["alsoKnownAs"].([]interface{})[a] == any(K[j]))
+//@   ensures [keeps] forall j int :: 0 <= j && j < len(K) && !has(S, K[j]) ==>
+//@        (exists a int :: 0 <= a && a < len(doc["alsoKnownAs"].([]interface{})) && doc["alsoKnownAs"].([]interface{})[a] == any(K[j]))
 //@   loop 0 invariant [own] newURIs == nil || fresh(newURIs)
+//@   loop 0 invariant [subset] $k <= len(K) && urisToRemove == S && (forall a int :: 0 <= a && a < len(newURIs) ==>
+//@        (exists j int :: 0 <= j && j < $k && !has(S, K[j]) && newURIs[a] == any(K[j])))
+//@   loop 0 invariant [keeps] forall j int :: 0 <= j && j < $k && !has(S, K[j]) ==>
+//@        (exists a int :: 0 <= a && a < len(newURIs) && newURIs[a] == any(K[j]))
 
+// C10: replace by id, in place: every entry with the id of `key` becomes `key`, every other entry
+// (and the order of all entries) stays
 //@ func updateKey(keys, key)
 //@   modifies elems(keys)
+//@   ensures [replace] forall i int :: 0 <= i && i < len(keys) ==>
+//@        keys[i] == ite(document.strEntry(old(keys[i]), "id") == document.strEntry(key, "id"), key, old(keys[i]))
+//@   loop 0 invariant [done] forall i int :: 0 <= i && i < $k ==>
+//@        keys[i] == ite(document.strEntry(old(keys[i]), "id") == document.strEntry(key, "id"), key, old(keys[i]))
+//@   loop 0 invariant [todo] forall i int :: $k <= i && i < len(keys) ==> keys[i] == old(keys[i])
 
 //@ func updateService(services, service)
 //@   modifies elems(services)
+//@   ensures [replace] forall i int :: 0 <= i && i < len(services) ==>
+//@        services[i] == ite(document.strEntry(old(services[i]), "id") == document.strEntry(service, "id"), service, old(services[i]))
+//@   loop 0 invariant [done] forall i int :: 0 <= i && i < $k ==>
+//@        services[i] == ite(document.strEntry(old(services[i]), "id") == document.strEntry(service, "id"), service, old(services[i]))
+//@   loop 0 invariant [todo] forall i int :: $k <= i && i < len(services) ==> services[i] == old(services[i])
 
+// the list stored in the document has the same entries in the same order
 //@ func convertPublicKeys(pubKeys) (values)
 //@   modifies nothing
 //@   ensures [own] values == nil || fresh(values)
+//@   ensures [same] len(values) == len(pubKeys) && (forall i int :: 0 <= i && i < len(pubKeys) ==> values[i] == any(map[string]interface{}(pubKeys[i])))
 //@   loop 0 invariant [own] values == nil || fresh(values)
+//@   loop 0 invariant [same] len(values) == $k && $k <= len(pubKeys) && (forall i int :: 0 <= i && i < $k ==> values[i] == any(map[string]interface{}(pubKeys[i])))
 
 //@ func convertServices(services) (values)
 //@   modifies nothing
 //@   ensures [own] values == nil || fresh(values)
+//@   ensures [same] len(values) == len(services) && (forall i int :: 0 <= i && i < len(services) ==> values[i] == any(map[string]interface{}(services[i])))
 //@   loop 0 invariant [own] values == nil || fresh(values)
+//@   loop 0 invariant [same] len(values) == $k && $k <= len(services) && (forall i int :: 0 <= i && i < $k ==> values[i] == any(map[string]interface{}(services[i])))
 
 //@ func interfaceArray(values) (iArr)
 //@   modifies nothing
 //@   ensures [own] iArr == nil || fresh(iArr)
+//@   ensures [same] len(iArr) == len(values) && (forall i int :: 0 <= i && i < len(values) ==> iArr[i] == any(values[i]))
 //@   loop 0 invariant [own] iArr == nil || fresh(iArr)
+//@   loop 0 invariant [same] len(iArr) == $k && $k <= len(values) && (forall i int :: 0 <= i && i < $k ==> iArr[i] == any(values[i]))
 
+// the set of the listed strings (a function of the list: contracts refer to it as sliceToMap(l))
 //@ func sliceToMap(ids) (values)
+//@   pure
 //@   modifies nothing
 //@   ensures [own] values != nil && fresh(values)
+//@   ensures [members] forall x string :: has(values, x) <==> (exists i int :: 0 <= i && i < len(ids) && ids[i] == x)
+//@   ensures [contains] forall i int :: 0 <= i && i < len(ids) ==> has(values, ids[i])
 //@   loop 0 invariant [own] values != nil && fresh(values)
+//@   loop 0 invariant [members] $k <= len(ids) && (forall x string :: has(values, x) <==> (exists i int :: 0 <= i && i < $k && ids[i] == x))
 
+// the set of the ids of the listed keys (a function of the list)
 //@ func sliceToMapPK(publicKeys) (values)
+//@   pure
 //@   modifies nothing
 //@   ensures [own] values != nil && fresh(values)
+//@   ensures [members] forall x string :: has(values, x) <==> (exists i int :: 0 <= i && i < len(publicKeys) && document.strEntry(publicKeys[i], "id") == x)
+//@   ensures [contains] forall i int :: 0 <= i && i < len(publicKeys) ==> has(values, document.strEntry(publicKeys[i], "id"))
 //@   loop 0 invariant [own] values != nil && fresh(values)
+//@   loop 0 invariant [members] $k <= len(publicKeys) && (forall x string :: has(values, x) <==> (exists i int :: 0 <= i && i < $k && document.strEntry(publicKeys[i], "id") == x))
 
 //@ func sliceToMapServices(services) (values)
+//@   pure
 //@   modifies nothing
 //@   ensures [own] values != nil && fresh(values)
+//@   ensures [members] forall x string :: has(values, x) <==> (exists i int :: 0 <= i && i < len(services) && document.strEntry(services[i], "id") == x)
+//@   ensures [contains] forall i int :: 0 <= i && i < len(services) ==> has(values, document.strEntry(services[i], "id"))
 //@   loop 0 invariant [own] values != nil && fresh(values)
+//@   loop 0 invariant [members] $k <= len(services) && (forall x string :: has(values, x) <==> (exists i int :: 0 <= i && i < $k && document.strEntry(services[i], "id") == x))
